@@ -169,6 +169,9 @@ def run_seed(prop: str, batch_seed: int, i: int) -> int:
     return int(h[:8], 16)
 
 
+_ADDRESS = __import__("re").compile(r"0x[0-9a-fA-F]{6,}")
+
+
 def _canon(o):
     if isinstance(o, float):
         if math.isnan(o):
@@ -180,7 +183,11 @@ def _canon(o):
         return {str(k): _canon(v) for k, v in o.items()}
     if isinstance(o, (list, tuple)):
         return [_canon(v) for v in o]
-    if isinstance(o, (str, int, bool)) or o is None:
+    if isinstance(o, str):
+        # messages of the system under test may quote object reprs with memory addresses, which differ from
+        # process to process and are nobody's behaviour
+        return _ADDRESS.sub("0xADDR", o) if "0x" in o else o
+    if isinstance(o, (int, bool)) or o is None:
         return o
     # numpy scalars and friends
     try:
